@@ -58,7 +58,10 @@ def main():
                 print(f"{outdir} change{k}: demo without={d0.returncode} with={d1.returncode} suite_rc={t.returncode} {summary[0].strip()}  -> {'CONFIRMED' if ok else 'REJECTED'}")
                 if not ok:
                     continue
-                name = f"{prop}-{os.path.basename(outdir.rstrip('/')).replace('mutout_', '')}-{k}"
+                n = 1
+                while os.path.exists(os.path.join(ROOT, "seeded", f"{prop}-{n}")):
+                    n += 1
+                name = f"{prop}-{n}"
                 dest = os.path.join(ROOT, "seeded", name)
                 os.makedirs(dest, exist_ok=True)
                 shutil.copy(diff, os.path.join(dest, "patch.diff"))
